@@ -47,6 +47,7 @@ CONSTANTS
   WPropose = 30
   WCommit = 35
   WApp = 15
+  LateBias = 3
   WStore = 10
 INVARIANT FEmit
 CHECK_DEADLOCK FALSE
